@@ -145,6 +145,7 @@ def main(argv=None):
         rprobes = [f.result() for f in fprobes]
 
     broken = []
+    nondet = []
     for r in results + rprobes:
         if "error" in r:
             broken.append(f"job {r['job'].get('sub')}#{r['job'].get('chunk')}: {r['error']}")
@@ -152,7 +153,7 @@ def main(argv=None):
         allent = set()
         for rp in rprobes:
             if rp["digest"] != results[rp["job"]["idx"]]["digest"]:
-                broken.append(f"nondeterminism: job {rp['job'].get('sub')}#{rp['job'].get('chunk')} gave different "
+                nondet.append(f"nondeterminism: job {rp['job'].get('sub')}#{rp['job'].get('chunk')} gave different "
                               "observation digests in two fresh interpreters")
             allent |= set(rp.get("entered", []))
         mech = getattr(mod, "MECHANISM", [])
@@ -162,6 +163,12 @@ def main(argv=None):
         if missing and not a.only and not any_violation:
             # (when cases already fail before reaching a function, the violations are the message)
             broken.append(f"mechanism never entered by the probe jobs: {missing}")
+    if nondet and not broken:
+        # behaviour that differs between two runs with the same hash seed (e.g. sets of objects ordered by
+        # address).  A violation that reproduces on replay is still a violation; without one the run is broken.
+        _db2 = findings.load()
+        if not any(findings.classify(prop, v, _db2) is None for r in results for v in r.get("violations", [])):
+            broken += nondet
     if broken:
         for b in broken[:5]:
             print("BROKEN:", b)
@@ -204,6 +211,12 @@ def main(argv=None):
         print(f"VIOLATION property={prop} replay={path}")
         reported.append(key)
         rc = max(rc, 1)
+    if nondet:
+        for nd in nondet[:3]:
+            print("NOTE:", nd)
+        if not reported:
+            print("BROKEN: run-to-run nondeterminism and no violation that reproduces on replay")
+            rc = max(rc, 2)
     wall = time.time() - t0
     ev = _evidence(prop, tier, seed, mod, results, reported, wall, known=[k for k in known],
                    only=a.only, n_unlisted=len(unlisted))
